@@ -281,8 +281,20 @@ def _detect_file_format(filepath):
     except csv.Error:
         pass
 
+    # A file whose sampled lines all split into the same number (>= 3) of comma-separated
+    # fields is a delimited table whatever its cells look like (e.g. "01/02/2025  Thu" dates
+    # next to right-aligned amounts), so it is never fixed-width. Thousands separators inside
+    # amounts ("1,234.00") are not field separators and are ignored for this count.
+    table_lines = [re.sub(r'(?<=\d),(?=\d{3})', '', l) for l in lines
+                   if l.strip() and not l.startswith('#')]
+    try:
+        field_counts = {len(row) for row in csv.reader(table_lines)}
+    except csv.Error:
+        field_counts = set()
+    looks_delimited = len(field_counts) == 1 and min(field_counts) >= 3
+
     # Make determination
-    if fixed_width_indicators >= 3:
+    if fixed_width_indicators >= 3 and not looks_delimited:
         result['format_type'] = 'fixed_width'
         result['issues'].append("File appears to be fixed-width format (like Bank of America statements)")
         result['suggestions'].append("Use 'delimiter: regex' with a pattern, or convert to CSV")
